@@ -31,6 +31,9 @@ def span(step):
     return None
 
 
+EXACT = object()   # marker: compare the rebased step itself, not its effect
+
+
 def separated(a, b):
     sa, sb = span(a), span(b)
     if sa is None or sb is None:
@@ -63,6 +66,19 @@ def run(ctx):
         outs = ctx.driver.run(reqs) if reqs else []
         for req, (replay, info, impl_rebased, base), out in zip(reqs, metas, outs):
             ctx.count("model_requests")
+            if base is EXACT:
+                # any pair (overlapping ranges included): the model's Step.map and the real one must agree exactly —
+                # both drop the step, or both return the same step
+                mo = out.get("ok") if "ok" in out else "ERR"
+                if impl_rebased is None or mo is None or mo == "ERR":
+                    same = (impl_rebased is None) and (mo is None)
+                else:
+                    stm, ms = outcome(lambda: info.un_step(mo))
+                    same = stm == "ok" and ms.to_json() == impl_rebased.to_json()
+                ctx.count("exact-map:" + ("dropped" if impl_rebased is None else "kept"))
+                if not same:
+                    ctx.mismatch("stepMap-exact", replay, None if impl_rebased is None else impl_rebased.to_json(), mo)
+                continue
             if "ok" not in out or out["ok"] is None:
                 ctx.mismatch("stepMap", replay, "a rebased step", out)
                 continue
@@ -91,6 +107,13 @@ def run(ctx):
                 for j in range(i + 1, len(cands)):
                     (na, a), (nb, b) = cands[i], cands[j]
                     if not separated(a, b):
+                        # overlapping or touching ranges: the property promises nothing, but the model of Step.map is
+                        # exact, so it is tied here too (this is where steps get dropped)
+                        for (x, y) in ((a, b), (b, a)):
+                            stx, x2 = outcome(lambda: x.map(y.get_map()))
+                            if stx == "ok":
+                                reqs.append({"op": "stepMap", "step": info.step(x), "m": step_map(y.get_map())})
+                                metas.append(({"schema": info.name, "step": x.to_json(), "over": y.to_json()}, info, x2, EXACT))
                         continue
                     replay = {"schema": info.name, "doc": d.to_json(), "a": a.to_json(), "b": b.to_json(), "ops": [na, nb]}
                     ctx.case(["pair", info.name, d.to_json(), a.to_json(), b.to_json()],
